@@ -21,7 +21,7 @@ let parse_script s =
   else List.map (fun t ->
       let n () = n_of_string (String.sub t 1 (String.length t - 1)) in
       match t.[0] with
-      | 'a' -> TA (n ()) | 'd' -> TD | 'g' -> TG (n ()) | 's' -> TS (n ())
+      | 'a' -> TA (n ()) | 'd' -> TD | 'g' -> TG (n ()) | 's' -> TS (n ()) | 'k' -> TK | 't' -> TT
       | _ -> failwith ("script token " ^ t)) (String.split_on_char ',' s)
 
 let kind_of_letter = function "B" -> Bytes | "C" -> Chars | "Y" -> Cycles | "I" -> Items | s -> failwith ("kind " ^ s)
@@ -409,9 +409,67 @@ let tuned_sb line =
         else "true"
     end
 
+(* ---- real-macro binary: every wrapper arm of #[divan::bench] ends in Bencher::bench(f) with an output
+   that owns a Box (sized, destructor); the body allocates 8 bytes, the destructor frees them ---- *)
+
+let e2e_case line : case =
+  let ss = ref "1" and sc = ref "1" and th = ref "1" and test = ref "0" in
+  List.iter (fun tok ->
+      match String.split_on_char '=' tok with
+      | ["bench"; _] -> ()
+      | ["ss"; v] -> ss := v | ["sc"; v] -> sc := v | ["th"; v] -> th := v | ["test"; v] -> test := v
+      | _ -> failwith ("e2e token " ^ tok)) (toks line);
+  parse_case (Printf.sprintf "e=0 sh=0001 cs=0000 u=1 ss=%s sc=%s th=%s test=%s p=- G=- K=- F=a8 O=- I=-" !ss !sc !th !test)
+
+(* the allocation rows the table must show: the operations with a non-zero tally in the samples' figures *)
+let e2e_labels (c : case) : string =
+  if c.cfg.r_test || int_of_nat (rounds c.cfg) = 0 then ""
+  else
+    let f = spec_figures c.cfg c.scr in
+    let nz (a, _) = a <> N0 in
+    String.concat "," (List.filter_map (fun (l, t) -> if nz t then Some l else None)
+                         [("grow", f.f_grow); ("shrink", f.f_shrink); ("alloc", f.f_alloc); ("dealloc", f.f_dealloc)])
+
+let e2e_render logs labels =
+  let b = Buffer.create 256 in
+  Buffer.add_string b "ok";
+  List.iteri (fun t l ->
+      Buffer.add_string b (" | T" ^ string_of_int t);
+      List.iter (fun e -> Buffer.add_char b ' '; Buffer.add_string b (ev_s e)) l) logs;
+  Buffer.add_string b (" | M " ^ labels);
+  Buffer.contents b
+
+let e2e_model line =
+  let c = e2e_case line in
+  e2e_render (model_logs c) (e2e_labels c)
+
+let e2e_sb line =
+  let (cl, il) = split_sb line in
+  let c = e2e_case cl in
+  (* split off the " | M labels" section *)
+  let marker = " | M " in
+  let rec find i = if i + String.length marker > String.length il then None
+    else if String.sub il i (String.length marker) = marker then Some i else find (i + 1) in
+  match find 0 with
+  | None -> verdict false ("outcome:" ^ il)
+  | Some i ->
+    let body = String.sub il 0 i and labels = String.sub il (i + String.length marker) (String.length il - i - String.length marker) in
+    (match parse_impl body with
+     | None -> verdict false ("outcome:" ^ il)
+     | Some im ->
+       if im.res <> "ok" then verdict false "unexpected-panic"
+       else match check_threads c im with
+         | Some why -> verdict false why
+         | None ->
+           if labels <> e2e_labels c then
+             verdict false ("table-attributes-to-the-samples:" ^ labels ^ ":expected:" ^ e2e_labels c)
+           else "true")
+
 let dispatch mode line =
   match mode with
   | "run" | "alloc" | "panic" -> model_line line
+  | "e2e" -> e2e_model line
+  | "e2e.sb" -> e2e_sb line
   | "tuned" | "tuned-alloc" -> tuned_model line
   | "tuned.sb" | "tuned-alloc.sb" -> tuned_sb line
   | "run.sb" -> run_sb ~alloc:false line
